@@ -38,7 +38,12 @@ def query (c : Content) (q : Json) : Except String Json := do
   | [.str "classes"] => pure (resJ (fun p => Json.arr #[strsJ p.1, strsJ p.2]) (Mxl.getClasses c))
   | [.str "args", v, t] => pure (resJ (assocJ ratJ) (Mxl.getArgs c (← optVars v) (← jRat t)))
   | [.str "fluxes", v, t] => pure (resJ (assocJ ratJ) (Mxl.getFluxes c (← optVars v) (← jRat t)))
-  | [.str "rhs", v, t] => pure (resJ (assocJ ratJ) (Mxl.getRhsQ c (← optVars v) (← jRat t)))
+  | [.str "rhs", v, t] =>
+      -- an explicit state goes through `getRhs` (= `get_right_hand_side(variables, time)`, the function of
+      -- `C01_entry_points_agree`), the default state through `getRhsQ`
+      match ← optVars v with
+      | some vars => pure (resJ (assocJ ratJ) (Mxl.getRhs c vars (← jRat t)))
+      | none => pure (resJ (assocJ ratJ) (Mxl.getRhsQ c none (← jRat t)))
   | [.str "call", t, xs] => pure (resJ ratsJ (Mxl.callRhs c (← jRat t) (← jList jRat xs)))
   | [.str "stoichvar", v, t, x] =>
       pure (resJ (assocJ ratJ) (Mxl.getStoichOfVar c (← jStr x) (← optVars v) (← jRat t)))
